@@ -77,6 +77,13 @@ def _is_set_valued(e: ast.expr, set_locals: set[str]) -> bool:
         return True
     if isinstance(e, ast.Name):
         return e.id in set_locals
+    if isinstance(e, ast.IfExp):
+        # a value that is a set on one arm is iterated in hash order whenever that arm is taken
+        return _is_set_valued(e.body, set_locals) or _is_set_valued(e.orelse, set_locals)
+    if isinstance(e, ast.BoolOp):
+        return any(_is_set_valued(v, set_locals) for v in e.values)
+    if isinstance(e, ast.NamedExpr):
+        return _is_set_valued(e.value, set_locals)
     if isinstance(e, ast.Call) and isinstance(e.func, ast.Name) and e.func.id in ("set", "frozenset"):
         return True
     if isinstance(e, ast.Call) and isinstance(e.func, ast.Attribute) and e.func.attr in ("union", "intersection", "difference", "symmetric_difference") \
